@@ -51,7 +51,7 @@ for sd in sorted(glob.glob(os.path.join(out, "C*-*"))):
     cmd = re.sub(r"CARGO_TARGET_DIR=\S+", "", cmd)
     cmd = re.sub(r"^\s*cd \S+\s*&&", "", cmd)
     rc1, o1 = sh(cmd + " 2>&1 | tail -30")
-    res["demo_fails_with_change"] = ("test result: FAILED" in o1 or "panicked" in o1) and "could not compile" not in o1
+    res["demo_fails_with_change"] = ("test result: FAILED" in o1 or "panicked" in o1 or "stack overflow" in o1 or "process didn't exit successfully" in o1) and "could not compile" not in o1
     sh("git checkout -- .")
     rc2, o2 = sh(cmd + " 2>&1 | tail -30")
     res["demo_passes_without_change"] = "test result: ok" in o2 and "FAILED" not in o2
